@@ -5,9 +5,10 @@
    the payload types are listed once, every rtpmap/fmtp/rtcp-fb line belongs to
    a listed payload type, every RTX entry's apt names a listed payload type,
    extmap ids are distinct and within 1..14, and each URI appears once.
-   The faithful model violates it in four ways (c10_full_refuted_*, each
+   The faithful model violates it in three ways (c10_full_refuted_*, each
    replayed on the real PeerConnection in the harness corpus); the clauses are
-   proved separately under the narrowest guards found. *)
+   proved separately, the RTX and attribute clauses for all inputs, the others
+   under the narrowest guards found. *)
 From Coq Require Import List ZArith NArith String Bool.
 Import ListNotations.
 From Verif Require Import Common.Base Model.Fmtp Model.Codec Model.HeaderExt Model.Section Model.CodecAssoc
@@ -15,22 +16,17 @@ From Verif Require Import Common.Base Model.Fmtp Model.Codec Model.HeaderExt Mod
 From Coq Require Import Lia.
 Open Scope string_scope.
 
-(* after filterUnattachedRTX every RTX entry's apt names a payload type of the
-   filtered list -- for all lists in which no RTX entry's apt names another RTX
-   entry *)
-Theorem c10_rtx_apt_listed_partial : forall l c,
-  no_rtx_chain l ->
+(* after filterUnattachedRTX every RTX entry's apt names the payload type of a
+   kept entry, and that entry is not an RTX entry: for all lists.  (Before the
+   repair "filterUnattachedRTX does not accept an RTX entry as the primary of
+   another" this held only for lists without RTX-to-RTX references:
+   [rtx 97 apt=99; rtx 98 apt=97] kept rtx 98.) *)
+Theorem c10_rtx_apt_listed : forall l c,
   In c (filter_unattached_rtx l) -> is_rtx c = true ->
-  exists a p, apt_of c = Some a /\ parse_atoi_pt a = Some p /\ has_pt p (filter_unattached_rtx l).
+  exists a p q, apt_of c = Some a /\ parse_atoi_pt a = Some p /\
+    In q (filter_unattached_rtx l) /\ c_pt q = p /\ is_rtx q = false.
 Proof. exact filter_rtx_apt_listed. Qed.
-Print Assumptions c10_rtx_apt_listed_partial.
-
-(* without the guard it fails: [rtx 97 apt=99; rtx 98 apt=97] keeps rtx 98 *)
-Theorem c10_rtx_apt_listed_refuted :
-  exists l c, In c (filter_unattached_rtx l) /\ is_rtx c = true /\
-    forall a p, apt_of c = Some a -> parse_atoi_pt a = Some p -> ~ has_pt p (filter_unattached_rtx l).
-Proof. exact filter_rtx_apt_refuted. Qed.
-Print Assumptions c10_rtx_apt_listed_refuted.
+Print Assumptions c10_rtx_apt_listed.
 
 (* the filter only removes entries, and never a non-RTX one *)
 Theorem c10_filter_sound : forall l x,
@@ -133,12 +129,6 @@ Theorem c10_full_refuted_dup_pt : exists l, w_dup_pt = Ok l /\ forallb section_o
 Proof. exact w_dup_pt_fails. Qed.
 Print Assumptions c10_full_refuted_dup_pt.
 
-(* an RTX entry whose apt names a removed RTX, in a first offer *)
-Theorem c10_full_refuted_rtx_chain : exists l, w_chain = Ok l /\ forallb section_ok l = false /\
-  existsb (fun s => negb (rtx_apts_listed (l_codecs s))) l = true.
-Proof. exact w_chain_fails. Qed.
-Print Assumptions c10_full_refuted_rtx_chain.
-
 (* section_ok is satisfiable on a non-trivial answer (remapped payload types,
    RTX with its primary, a negotiated extension) *)
 Example c10_section_ok_nontrivial : exists l,
@@ -146,11 +136,7 @@ Example c10_section_ok_nontrivial : exists l,
             [(mkRsec KVideo [set_pt w_vp8 100; mkCodec "video/rtx" 90000 0 "apt=100" [] 101] [(3%Z, w_mid)], None)]
   = Ok l /\ forallb section_ok l = true /\ map sec_formats l = [[100%N; 101%N]].
 Proof. exact w_good. Qed.
-Example c10_no_rtx_chain_nontrivial :
-  no_rtx_chain [w_vp8; mkCodec "video/rtx" 90000 0 "apt=96" [] 97; mkCodec "video/rtx" 90000 0 "apt=55" [] 99].
-Proof.
-  intros c a p q Hc Hr Ha Hp Hq Hpt.
-  destruct Hc as [<-|[<-|[<-|[]]]]; try discriminate;
-    vm_compute in Ha; injection Ha as <-; vm_compute in Hp; injection Hp as <-;
-    destruct Hq as [<-|[<-|[<-|[]]]]; try (vm_compute in Hpt; discriminate); auto.
-Qed.
+(* the former witness of the RTX clause: both RTX entries are dropped *)
+Example c10_rtx_chain_repaired : exists l, w_chain = Ok l /\ forallb section_ok l = true /\
+  map sec_formats l = [[96%N]].
+Proof. exact w_chain_ok. Qed.
